@@ -972,6 +972,23 @@ def mc_entryread(rep, wd, tier):
         rep.neg_controls.append({"spec_mutant": bug, "expected_violation": inv, "found": found})
         if not found:
             raise ToolTrouble("spec mutant %s not detected" % bug)
+    if tier == "thorough":
+        # the same invariants for entries of ANY length under ANY read schedule: inductive invariant, Apalache/SMT
+        obl = [("initiation", ["--cinit=CInit", "--init=Init", "--inv=IndInv", "--length=0"]),
+               ("consecution", ["--cinit=CInit", "--init=IndInit", "--next=PNext", "--inv=IndInv", "--length=1"]),
+               ("IndInv implies the invariants", ["--cinit=CInit", "--init=IndInit", "--inv=Implied", "--length=0"])]
+        for name, args in obl:
+            ok, tail = apalache("EntryReadProof.tla", args, wd, "erproof")
+            if not ok:
+                log(tail)
+                raise ToolTrouble("Apalache did not discharge EntryReadProof: " + name)
+        bad, tail = apalache("EntryReadProof.tla", ["--cinit=CInitNoMac", "--init=IndInit", "--next=PNext", "--inv=IndInv", "--length=1"], wd, "erproof-neg")
+        if bad or "Checker has found an error" not in tail:
+            log(tail)
+            raise ToolTrouble("Apalache did not refute consecution under BUG = no_mac")
+        rep.neg_controls.append({"spec_mutant": "EntryReadProof consecution with BUG = no_mac", "expected_violation": "IndInv", "found": True})
+        rep.notes["apalache_obligations"] = {"obligations": 3, "discharged": 3, "spec": "EntryReadProof.tla (IndInv inductive for payload lengths, buffer sizes and short-read choices over all naturals; "
+                                             "IndInv => CipherSync, MacAtEnd, EofIntegrity, TamperDetected, Accounting)"}
 
 
 def crc_hex(b):
